@@ -16,7 +16,8 @@ from .tlc import make_cfg, run_tlc
 
 TX = odftext.TX
 TAGS = {"span": 'text:span text:style-name="T1"', "a": 'text:a xlink:href="http://example.org/" xlink:type="simple"'}
-MARK_TAGS = {TX + "bookmark", TX + "bookmark-start", TX + "bookmark-end", TX + "reference-mark", TX + "reference-mark-start", TX + "reference-mark-end"}
+MARK_TAGS = {TX + "bookmark", TX + "bookmark-start", TX + "bookmark-end", TX + "reference-mark", TX + "reference-mark-start", TX + "reference-mark-end",
+             "{%s}annotation" % odftext.OFFICE_NS, "{%s}annotation-end" % odftext.OFFICE_NS}     # an annotation is a mark: its own content is not text of the paragraph
 
 
 def tokens_xml(tokens: list) -> str:
@@ -93,12 +94,27 @@ def project(el) -> list:
 
 
 def nth_element(par, tokens: list, i: int):
-    """the odfdo child element matching the token at 1-based index i"""
+    """the odfdo element matching the token at 1-based index i (same walk as project(): only spans and links are
+    entered, every other element - marks, annotations with their own content, notes - is one token)"""
     want = sum(1 for t in tokens[:i] if t["k"] in ("o", "e"))
-    for k, el in enumerate(par.get_elements("descendant::*"), 1):
-        if k == want:
-            return el
-    raise IndexError(i)
+    count = 0
+
+    def walk(e):
+        nonlocal count
+        for ch in e.children:
+            count += 1
+            if count == want:
+                return ch
+            if ch.tag in ("text:span", "text:a"):
+                r = walk(ch)
+                if r is not None:
+                    return r
+        return None
+
+    el = walk(par)
+    if el is None:
+        raise IndexError(i)
+    return el
 
 
 def apply(par, o: dict, tokens: list, variant: int = 0):
@@ -133,12 +149,24 @@ def apply(par, o: dict, tokens: list, variant: int = 0):
         else:
             par.set_reference_mark("rm2", position=o["pos"])
         return par
+    if op == "mark_range":
+        pos = (o["a"], o["b"])
+        # (an annotation only as the last operation on a paragraph: once it is there, the offsets of later calls
+        # count its own text too - documented assumption of C09)
+        if variant % 3 == 2 and o.get("alone"):
+            par.insert_annotation(body="remark", creator="verif", position=pos)
+        elif variant % 2 == 0:
+            par.set_bookmark("bm3", position=pos)
+        else:
+            par.set_reference_mark("rm3", position=pos)
+        return par
     if op == "strip_tags":
         # keep_heading=False: a heading's own spans are stripped too (the default protects them, as documented)
         return par.remove_spans(keep_heading=False) if o["tag"] == "span" else par.remove_links()
     if op == "delete":
         el = nth_element(par, tokens, o["i"])
-        if variant % 2 == 0:
+        # (ReferenceMarkStart.delete() is documented as deleting the matching end mark too: the one-element form is used for it)
+        if variant % 2 == 0 and el.tag != "text:reference-mark-start":
             el.delete()
         else:
             el.parent.delete(el)
